@@ -732,6 +732,10 @@ pub fn eval_case2(prop: &str, case: &Case, obs: &mut Obs) -> Vec<Violation> {
             obs.count("adts_length_sweeps", 1);
             mon::c12::check_exec(&h, &ex, obs)
         }
+        ("C12", Case::FuzzInput { data }) => {
+            obs.nontrivial(crate::util::fnv(data));
+            crate::fuzzdec::eval(data, obs)
+        }
         ("C13", Case::FaultAll { h, level }) => {
             obs.evaluations -= 1; // counted per fault run inside
             obs.sample(h.brief());
